@@ -28,10 +28,13 @@ theorem foldl_min_le (l : List α) (x : α) :
   | nil => simp
   | cons a t ih =>
     simp only [List.foldl_cons, List.mem_cons, forall_eq_or_imp]
-    obtain ⟨h1, h2⟩ := ih (if a < x then a else x)
-    refine ⟨?_, ?_, h2⟩
-    · split at h1 <;> [exact le_trans h1 (le_of_lt ‹_›); exact h1]
-    · split at h1 <;> [exact h1; exact le_trans h1 (not_lt.mp ‹_›)]
+    by_cases hax : a < x
+    · obtain ⟨h1, h2⟩ := ih a
+      simp only [if_pos hax]
+      exact ⟨le_trans h1 (le_of_lt hax), h1, h2⟩
+    · obtain ⟨h1, h2⟩ := ih x
+      simp only [if_neg hax]
+      exact ⟨h1, le_trans h1 (not_lt.mp hax), h2⟩
 
 theorem foldl_min_mem (l : List α) (x : α) :
     l.foldl (fun m y => if y < m then y else m) x = x ∨
@@ -40,11 +43,15 @@ theorem foldl_min_mem (l : List α) (x : α) :
   | nil => simp
   | cons a t ih =>
     simp only [List.foldl_cons, List.mem_cons]
-    rcases ih (if a < x then a else x) with h | h
-    · split at h
+    by_cases hax : a < x
+    · simp only [if_pos hax]
+      rcases ih a with h | h
       · right; left; exact h
+      · right; right; exact h
+    · simp only [if_neg hax]
+      rcases ih x with h | h
       · left; exact h
-    · right; right; exact h
+      · right; right; exact h
 
 theorem foldl_max_ge (l : List α) (x : α) :
     x ≤ l.foldl (fun m y => if m < y then y else m) x ∧
@@ -53,10 +60,13 @@ theorem foldl_max_ge (l : List α) (x : α) :
   | nil => simp
   | cons a t ih =>
     simp only [List.foldl_cons, List.mem_cons, forall_eq_or_imp]
-    obtain ⟨h1, h2⟩ := ih (if x < a then a else x)
-    refine ⟨?_, ?_, h2⟩
-    · split at h1 <;> [exact le_trans (le_of_lt ‹_›) h1; exact h1]
-    · split at h1 <;> [exact h1; exact le_trans (not_lt.mp ‹_›) h1]
+    by_cases hax : x < a
+    · obtain ⟨h1, h2⟩ := ih a
+      simp only [if_pos hax]
+      exact ⟨le_trans (le_of_lt hax) h1, h1, h2⟩
+    · obtain ⟨h1, h2⟩ := ih x
+      simp only [if_neg hax]
+      exact ⟨h1, le_trans (not_lt.mp hax) h1, h2⟩
 
 theorem foldl_max_mem (l : List α) (x : α) :
     l.foldl (fun m y => if m < y then y else m) x = x ∨
@@ -65,11 +75,15 @@ theorem foldl_max_mem (l : List α) (x : α) :
   | nil => simp
   | cons a t ih =>
     simp only [List.foldl_cons, List.mem_cons]
-    rcases ih (if x < a then a else x) with h | h
-    · split at h
+    by_cases hax : x < a
+    · simp only [if_pos hax]
+      rcases ih a with h | h
       · right; left; exact h
+      · right; right; exact h
+    · simp only [if_neg hax]
+      rcases ih x with h | h
       · left; exact h
-    · right; right; exact h
+      · right; right; exact h
 
 theorem minL_spec {l : List α} {m : α} (h : minL l = some m) : m ∈ l ∧ ∀ v ∈ l, m ≤ v := by
   cases l with
@@ -180,5 +194,22 @@ theorem sumL_eq_sum (l : List α) : sumL l = l.sum := by
 theorem lerp_eq (a b t : α) : lerp a b t = a + (b - a) * t := by
   unfold lerp
   split <;> ring
+
+/-! ### ppos -/
+
+theorem ppos_den_pos (n : Nat) (hn : 0 < n) (cst : α) (h1 : cst ≤ 1 / 2) :
+    (0 : α) < ((n + 1 : Nat) : α) - 2 * cst := by
+  have h : (1 : α) ≤ (n : α) := by exact_mod_cast hn
+  have h2 : 2 * cst ≤ 1 := by
+    have := mul_le_mul_of_nonneg_left h1 (by norm_num : (0 : α) ≤ 2)
+    simpa using this
+  push_cast
+  linarith
+
+theorem ppos_eq (n : Nat) (cst : α) (h0 : 0 ≤ cst) (h1 : cst ≤ 1 / 2) :
+    ppos n cst = .ok ((List.range n).map fun i =>
+      (((i + 1 : Nat) : α) - cst) / (((n + 1 : Nat) : α) - 2 * cst)) := by
+  unfold ppos
+  rw [if_neg (not_or.mpr ⟨not_lt.mpr h0, not_lt.mpr h1⟩)]
 
 end HydroVerif.C20
